@@ -163,6 +163,10 @@ def c06_kernels(isa):
             out.append(["str x7, [x1], #8", "add x1, x1, #8", f"ldr x8, [x1, #{d - 16}]"])
             out.append(["str x7, [x1, #8]!", "add x1, x1, #8", f"ldr x8, [x1, #{d - 8}]"])
             out.append(["str x7, [x1, #8]!", "sub x1, x1, #8", f"ldr x8, [x1, #{d}]"])
+        # register + register is not a constant change (only register + immediate is)
+        for op in ("add", "adds", "sub", "subs"):
+            out.append(["str x7, [x2]", f"{op} x1, x2, x3", "ldr x8, [x1]"])
+            out.append(["str x7, [x2, #8]", f"{op} x1, x2, #8", "ldr x8, [x1]", "ldr x9, [x1, #16]"])
         # write-back by a register (not a constant): the base is unknown afterwards, nothing may crash
         out += [["str q1, [x1]", "ld1 {v0.4s}, [x1], x2", "ldr q3, [x1]"], ["str q1, [x1]", "ld1 {v0.4s}, [x1], x2"]]
         out += [["str x7, [sp, #-16]!", "ldr x8, [sp], #16"], ["stp x7, x9, [sp, #-16]!", "add x2, x2, #1", "ldp x8, x10, [sp], #16"]]
@@ -176,6 +180,7 @@ def c06_kernels(isa):
                 for bump in ([], ["addq $8, %rax"], ["incq %rbx"], ["movq %rax, %rdx"]):
                     base = "rdx" if bump == ["movq %rax, %rdx"] else "rax"
                     out.append([rmw] + bump + [f"movq {d}(%{base}{idx}), %rdi"])
+        out += [["movq %rsi, (%rbx)", "sbbq %rcx, %rbx", "movq (%rbx), %rdi"], ["movq %rsi, (%rbx)", "subq %rcx, %rbx", "movq (%rbx), %rdi"], ["movq %rsi, (%rbx)", "addq %rcx, %rbx", "movq (%rbx), %rdi"]]
         for d in (-8, 0, 8, 16):
             out.append(["movq %rsi, 8(%rax)", f"movq {d}(%rax), %rax"])
             out.append(["movq %rsi, 8(%rax,%rbx,8)", f"movq {d}(%rax,%rbx,8), %rbx"])
